@@ -80,7 +80,7 @@ def _gen(g):
     return {"kind": "conc", "config": g.choice(["S", "S", "E"]) if ttl else g.choice(["S", "S", "E", "U"]),
             "maxsize": g.choice([None, 0, 1, 1, 2, 2, 3]), "typed": typed, "ttl": ttl, "ac": g.chance(30),
             "outcomes": [g.weighted([(75, "ok"), (25, "boom")]) for _ in range(g.int(1, 6))],
-            "callers": callers, "ctl": ctl}
+            "callers": callers, "ctl": ctl, "nest": g.choice([0, 0, 1])}
 
 
 _strategy = composite(_gen)
@@ -143,6 +143,7 @@ def run_conc(case, out, stats):
     maxsize, typed, ttl = case["maxsize"], case["typed"], case["ttl"]
 
     async def body(sim):
+        sim.nest = case.get("nest", 0)
         loop = sim.loop
         execs = []                 # {"key","n","gate","state","t_done"}
         running = {}               # canonical key -> executions in progress
